@@ -20,6 +20,12 @@ def frame(t, body, length=None):
 def malformed(rng, mal):
     """Bytes for a malformation class sent on an established connection."""
     t = rng.choice([b'Q', b'P', b'B', b'D', b'E', b'C', b'S'])
+    if mal in ('query_deeply_nested', 'parse_deeply_nested'):
+        depth = rng.choice([120, 600, 3000])
+        sql = 'SELECT ' + '(' * depth + '1' + ')' * depth
+        if mal == 'query_deeply_nested':
+            return W.Q(sql)
+        return W.Parse('', sql) + W.Bind('', '') + W.Execute() + W.Sync()
     if mal == 'len_zero':
         return frame(t, b'', 0)
     if mal == 'len_three':
@@ -364,6 +370,8 @@ def check_c11(prop, tier, seed):
             items.append({'id': idx, 'steps': [cs], 'seed': seed * 11 + idx, 'cache': [0, 8][idx % 2], 'parser': idx % 3 == 0})
             if cs['phase'] == 'queued':
                 items[-1]['cache'] = 8
+            if 'deeply_nested' in cs['mal']:
+                items[-1]['parser'] = True
             if any(x in cs['mal'] for x in ('parse', 'bind', 'describe', 'close', 'execute', 'statement_name')):
                 # decoders of the extended protocol are only used with statement caching on: run these both ways
                 idx += 1
